@@ -491,13 +491,26 @@ func checkC15(c C15Case, o *Obs) error {
 				}
 			}
 			var got bool
-			if p := catch(func() { got = tr.Delete([]byte(s)) }); p != nil {
+			// the operand lives in a query buffer of the caller, which is reused for the next queries
+			qbuf := make([]byte, 0, len(s)+16)
+			qbuf = append(qbuf, s...)
+			if p := catch(func() { got = tr.Delete(qbuf) }); p != nil {
 				return fmt.Errorf("step %d %s panicked: %v (history %v)", step, desc, p, hist)
 			}
 			parentBefore := len(s) > 1 && m.hasPrefix(s[:len(s)-1])
 			want := m.del(s)
 			if got != want {
 				return fmt.Errorf("step %d %s returned %v, want %v (history %v)", step, desc, got, want, hist)
+			}
+			for _, mem := range m.sorted() {
+				if len(mem) > cap(qbuf) {
+					continue
+				}
+				q := append(qbuf[:0], mem...) // the same buffer now holds a member
+				if !tr.Has(q) {
+					return fmt.Errorf("step %d: after %s the caller reused the buffer it had passed to Delete for the query %q: Has = false, want true (history %v)", step, desc, mem, abbrevHist(hist))
+				}
+				break
 			}
 			// and the first lookups after it are for the same prefixes and for the operand itself
 			for _, cut := range []int{len(s) - 1, len(s) / 2, len(s)} {
